@@ -69,6 +69,28 @@ MUTATIONS = [
     ("S29", "detect", ("particles=vectorized_incoming.particles.flatten(end_dim=-3)", "particles=vectorized_incoming.particles.flatten(end_dim=-2)"), "frame: flatten merges the particle axis"),
     ("S30", "detect", ("                energy=incoming.energy,\n", "                energy=incoming.energy * 2,\n"), "frame: outgoing energy changed"),
     ("S31", "detect", ("energy=torch.broadcast_to(incoming.energy, vector_shape),", "energy=torch.broadcast_to(incoming.energy + 1, vector_shape),"), "frame: energy of the copy changed"),
+    # ---- semantic: _deposit_charge_on_grid
+    ("D01", "detect", (") * inv_cell_size.unsqueeze(-2)", ") / inv_cell_size.unsqueeze(-2)"), "deposit: normalised position divided by inv_cell_size"),
+    ("D02", "detect", ("offsets.unsqueeze(-3) == 0, 1 - cell_fractions, cell_fractions\n        )\n        # Shape: (.., num_particles, 8, 3)",
+                       "offsets.unsqueeze(-3) == 0, cell_fractions, 1 - cell_fractions\n        )\n        # Shape: (.., num_particles, 8, 3)"), "deposit: weights of lower / upper node swapped"),
+    ("D03", "detect", ("& (idx_tau < self.grid_shape[2])", "& (idx_tau < self.grid_shape[1])"), "deposit: tau index checked against n_y (seeded C19-4)"),
+    ("D04", "detect", ("survived_particle_charges = beam.particle_charges * beam.survival_probabilities", "survived_particle_charges = beam.particle_charges"), "deposit: survival probability dropped"),
+    ("D05", "detect", ("repeated_charges = survived_particle_charges.repeat_interleave(\n            repeats=8, dim=-1\n        )",
+                       "repeated_charges = survived_particle_charges.repeat(\n            1, 8\n        )"), "deposit: repeat(1, 8) pairs weights with other particles' charges (seeded C19-7)"),
+    ("D06", "detect", ("accumulate=True", "accumulate=False"), "deposit: index_put_ without accumulation"),
+    ("D07", "detect", ("inv_cell_size[..., 0] * inv_cell_size[..., 1] * inv_cell_size[..., 2]", "inv_cell_size[..., 0] * inv_cell_size[..., 1] * inv_cell_size[..., 1]"), "deposit: cell volume with cs_1 twice"),
+    ("D08", "detect", ("(idx_x >= 0)\n            & (idx_x < self.grid_shape[0])", "(idx_x > 0)\n            & (idx_x < self.grid_shape[0])"), "deposit: valid mask excludes index 0"),
+    ("D09", "detect", ("idx_y = surrounding_indices[..., 1].flatten(start_dim=-2)", "idx_y = surrounding_indices[..., 0].flatten(start_dim=-2)"), "deposit: idx_y reads the x index"),
+    # ---- semantic: _compute_forces
+    ("G01", "detect", (") / cell_size.unsqueeze(-2)", ") * cell_size.unsqueeze(-2)"), "gather: normalised position multiplied by the cell size"),
+    ("G02", "detect", (".repeat(8 * beam.particles.shape[-2], 1)\n            .T\n        )  # Shape: (..., num_particles * 8)",
+                       ".repeat(8 * beam.particles.shape[-2])\n            .reshape(cell_indices.shape[0], -1)\n        )  # Shape: (..., num_particles * 8)"), "gather: batch index not constant per sample (seeded C19-8)"),
+    ("G03", "detect", ("cell_weights.flatten(start_dim=-2) * elementary_charge", "cell_weights.flatten(start_dim=-2) * elementary_charge * 2"), "gather: factor 2"),
+    ("G04", "detect", ("Fy_values = torch.where(valid_mask, grad_y[force_indices], 0)", "Fy_values = torch.where(valid_mask, grad_x[force_indices], 0)"), "gather: F_y read from grad_x"),
+    ("G05", "detect", ("torch.clamp(idx_y, min=0, max=grid_shape[1] - 1)", "torch.clamp(idx_x, min=0, max=grid_shape[1] - 1)"), "gather: y index of the force read is the x index"),
+    ("G06", "detect", (".repeat_interleave(8)\n            .unsqueeze(0)", ".repeat(8)\n            .unsqueeze(0)"), "gather: scatter index pairs corner entries with other particles"),
+    ("G07", "detect", ("values_z = cell_weights_with_e * Fz_values", "values_z = cell_weights_with_e * Fx_values"), "gather: z force from F_x"),
+    ("G08", "detect", ("Fx_values = torch.where(valid_mask, grad_x[force_indices], 0)", "Fx_values = grad_x[force_indices]"), "gather: invalid corners not zeroed"),
     # ---- cosmetic
     ("K01", "ok", ("        r = torch.sqrt(x**2 + y**2 + tau**2)", "        # radius\n        r = torch.sqrt(x**2 + y**2 + tau**2)  # |(x, y, tau)|"), "comments in _integrated_potential"),
     ("K02", "ok", [("        r = torch.sqrt(x**2 + y**2 + tau**2)", "        radius = torch.sqrt(x**2 + y**2 + tau**2)"),
@@ -81,6 +103,8 @@ MUTATIONS = [
                    "            cell_size = 2 * grid_dimensions / (torch.tensor(self.grid_shape, **self.factory_kwargs) - 1)"), "reformat cell_size on one line"),
     ("K05", "ok", ("        integrated_potential = (\n", "        integrated_potential = (  # antiderivative of 1/r\n\n"), "comment + blank line inside the expression"),
     ("K07", "ok", [("x_grid", "xs", "all"), ("G_values", "first_octant", "all")], "local renames x_grid, G_values (all occurrences)"),
+    ("K08", "ok", [("survived_particle_charges", "live_charges", "all"), ("cell_fractions", "frac", "all")], "local renames in the cloud-in-cell code"),
+    ("K09", "ok", ("        # Accumulate the charge contributions\n", "        # Accumulate the charge contributions (one entry per particle and corner)\n\n"), "comment in the deposit"),
     ("K06", "ok", [("        inv_cell_size = 1 / cell_size\n        igamma2 =", "        one_over_cell = 1 / cell_size\n        igamma2 ="),
                    ("(0.5 * inv_cell_size[..., 0, None, None, None])", "(0.5 * one_over_cell[..., 0, None, None, None])"),
                    ("(0.5 * inv_cell_size[..., 1, None, None, None])", "(0.5 * one_over_cell[..., 1, None, None, None])"),
@@ -168,7 +192,7 @@ def main():
             print("FAIL: the scratch copy was not restored faithfully")
             bad += 1
         if "--no-seeded" not in sys.argv and not only:
-            print("\nseeded patches (informational):")
+            print("\nseeded patches (touching a translated function -> must be detected; otherwise -> must be ok):")
             for pd in sorted((common.VERIF / "seeded").glob("C19-*/patch.diff")):
                 files = re.findall(r"^\+\+\+ b/(\S+)", pd.read_text(), flags=re.M)
                 backup = {f: ((COPY / f).read_text() if (COPY / f).exists() else None) for f in files}
@@ -183,8 +207,11 @@ def main():
                     restore(backup)
                     for junk in list(COPY.rglob("*.orig")) + list(COPY.rglob("*.rej")):
                         junk.unlink()
-                tch = "a translated function" if (h is None or h != base) else "no translated function"
-                print(f"{pd.parent.name:6} touches {tch:24} stage: {describe(r)}", flush=True)
+                touched = h is None or h != base
+                tch = "a translated function" if touched else "no translated function"
+                good = (r["status"] in ("translator_failed", "equivalence_broken")) if touched else (r["status"] == "ok")
+                bad += 0 if good else 1
+                print(f"{pd.parent.name:6} touches {tch:24} {'PASS' if good else 'FAIL'} stage: {describe(r)}", flush=True)
         d, k = counts["detect"], counts["ok"]
         print(f"\nsemantic mutations detected {d[1]}/{d[0]}; cosmetic edits accepted {k[1]}/{k[0]}")
         print(f"self-test finished in {round(time.time() - t0, 1)} s: {'ALL EXPECTATIONS HOLD' if not bad else str(bad) + ' FAILED'}")
